@@ -117,7 +117,6 @@ type tearResult struct {
 	sched   string
 	l0, l1  []string
 	err     string
-	earlyRs int // responses that arrived while the media goroutine was parked mid-frame
 }
 
 func transportFor(ch int, ctl bool) string {
@@ -199,18 +198,15 @@ func runTear(fx *sl.Fixture, t tearCase) (res tearResult) {
 		res.l0 = append(res.l0, lab)
 		res.frames = append(res.frames, [2]interface{}{ch, data})
 		sched.WriteString("00") // lock, write prefix
-		before := len(c.RawLog())
 		var injected []int
 		for _, m := range p.inject {
 			injected = append(injected, req(m, base+fx.Path, ""))
 			sched.WriteString("1") // the request goroutine reaches lockW.Lock and blocks
 		}
 		if len(p.inject) > 0 {
+			// give the request goroutine time to reach lockW (or, without the lock, to write its
+			// response into the middle of the frame); the stream verdict below decides
 			time.Sleep(grace)
-			// anything that looks like a response arriving now has been written inside the frame
-			if got := c.RawLog(); bytes.Contains(got[before:], []byte("RTSP/1.0")) {
-				res.earlyRs++
-			}
 		}
 		release <- struct{}{}
 		sched.WriteString("00") // write body, unlock
@@ -609,15 +605,12 @@ func runC13(c *Ctx) {
 			continue
 		}
 		verdict := KV(outs[2*i])["verdict"]
-		if res.earlyRs > 0 && verdict == "ok" {
-			verdict = "response-inside-frame"
-		}
 		if verdict != "ok" {
 			cl := verdict
 			if inj > 0 {
 				cl += ":request-while-mid-frame"
 			}
-			c.Find(Finding{Kind: "oracle", Class: cl, Case: t.line(), Impl: fmt.Sprintf("%d bytes, %d frames, %d responses expected; responses seen mid-frame: %d", len(res.raw), len(res.frames), len(res.cseqs), res.earlyRs), Spec: verdict,
+			c.Find(Finding{Kind: "oracle", Class: cl, Case: t.line(), Impl: fmt.Sprintf("%d bytes, %d frames, %d responses expected", len(res.raw), len(res.frames), len(res.cseqs)), Spec: verdict,
 				Detail: "stream=" + trunc(Hx(res.raw), 600)})
 		}
 		c.Count("tear-verdict-" + verdict)
